@@ -66,3 +66,57 @@ Proof. intros H. split; [apply top_line_set_line; exact H|reflexivity]. Qed.
 Lemma exec_while_uses_statement_line ev k st c body :
   exec_stmt ev (S k) st (SWhile c body) = while_loop ev (fun s1 => exec_block ev k s1 body) c (cur_line st) k st.
 Proof. reflexivity. Qed.
+
+(* ------------------------------------------------------------------------------------------ *)
+(* where an error is reported                                                                  *)
+
+(* An expression that fails leaves the frame that evaluated it exactly as it was — its line included — under the
+   frames of the calls that were in progress.  (For every fuel, state and expression, at any call depth.) *)
+Theorem expr_fault_keeps_frame n st e er s1 :
+  wf st -> eval_expr n st e = Er er s1 -> exists extra, stack s1 = extra ++ stack st.
+Proof.
+  intros W H. pose proof (eval_expr_balanced n st e W) as B. rewrite H in B. exact (proj1 (proj1 B)).
+Qed.
+
+(* The statements that evaluate their expressions themselves — an expression statement, 输出, a declaration:
+   when one of them, run by the block driver at its line, fails, the frame it runs in shows that line, whatever calls
+   were made (and left their frames) on the way. *)
+Definition direct_stmt (s : stmt) : bool :=
+  match s with SExpr _ | SReturn _ | SDecl _ => true | _ => false end.
+
+Theorem direct_stmt_fault_line n k st line s er s1 :
+  wf st -> direct_stmt s = true ->
+  exec_stmt (eval_expr n) (S k) (set_line st line) s = Er er s1 ->
+  exists extra f tl, stack s1 = extra ++ f :: tl /\ f_line f = line /\ tl = List.tl (stack st).
+Proof.
+  intros W D H.
+  assert (Wl : wf (set_line st line)) by (apply (R_wf_ok_s st), R_ok_s_set_line; exact W).
+  assert (Hst : exists f, stack (set_line st line) = f :: List.tl (stack st) /\ f_line f = line).
+  { destruct W as [Hne _]. unfold set_line. destruct (stack st) as [|f0 tl0] eqn:E; [congruence|].
+    eexists. cbn [stack set_stack List.tl]. split; reflexivity. }
+  destruct Hst as (f & Hf & Hl).
+  assert (Hx : exists extra, stack s1 = extra ++ stack (set_line st line)).
+  { destruct s; try discriminate; cbn [exec_stmt] in H.
+    - (* declaration *)
+      pose proof (bal_decl_pairs (eval_expr n) (eval_expr_balanced n) k pairs (set_line st line) Wl) as B.
+      rewrite H in B. exact (proj1 (proj1 B)).
+    - (* 输出 *)
+      destruct (eval_expr n (set_line st line) e) as [v s2|e2 s2| |w] eqn:E; cbn [bind] in H; try discriminate.
+      inversion H; subst. eapply expr_fault_keeps_frame; eassumption.
+    - (* expression statement *)
+      eapply expr_fault_keeps_frame; eassumption. }
+  destruct Hx as [extra Hx]. exists extra, f, (List.tl (stack st)). rewrite Hx, Hf. repeat split; assumption.
+Qed.
+
+(* 每当: a fault in the condition — on the first pass or on any later one — is reported at the loop's own line *)
+Theorem while_condition_fault_line n body c l j st er s1 :
+  wf st -> eval_expr n (set_line st l) c = Er er s1 ->
+  while_loop (eval_expr n) body c l (S j) st = Er er s1 /\
+  exists extra f tl, stack s1 = extra ++ f :: tl /\ f_line f = l /\ tl = List.tl (stack st).
+Proof.
+  intros W H. split; [cbn [while_loop]; rewrite H; reflexivity|].
+  assert (Wl : wf (set_line st l)) by (apply (R_wf_ok_s st), R_ok_s_set_line; exact W).
+  destruct (expr_fault_keeps_frame n (set_line st l) c er s1 Wl H) as [extra Hx].
+  destruct W as [Hne _]. unfold set_line in Hx. destruct (stack st) as [|f0 tl0] eqn:E; [congruence|].
+  cbn [stack set_stack] in Hx. eexists extra, _, tl0. split; [exact Hx|]. split; reflexivity.
+Qed.
